@@ -475,16 +475,30 @@ function!(Xor(a: Boolean, b: Boolean)=>Boolean, ctx=ctx, arg_opts=raw,{
     Ok(ret.into())
 });
 
+// comparison is defined between two integers, two strings or two booleans
 macro_rules! compare_op{
     ($name:ident, $op:tt) =>{
-        function!($name(a: Any, b: Any)=>Boolean, {
-            match (a,b) {
-                (Value::Integer(a),Value::Integer(b)) => Ok((a $op b).into()),
-                (Value::String(a),Value::String(b)) => Ok((a $op b).into()),
-                (Value::Boolean(a),Value::Boolean(b)) => Ok((a $op b).into()),
-                _ => panic!("not implemented")
+        function_head!($name(a: Any, b: Any)=>Boolean);
+        impl Callable for $name {
+            fn signature(&self, ctx: ScriptContextRef, args: &[Value]) -> Result<Type, Error> {
+                let a = args[0].real_type_of(ctx.clone())?;
+                let b = args[1].real_type_of(ctx)?;
+                let scalar = |t: &Type| matches!(t, Type::Integer | Type::String | Type::Boolean | Type::Any);
+                if a != b || !scalar(&a) || !scalar(&b) {
+                    bail!("can not compare {} with {}", a, b)
+                }
+                Ok(Type::Boolean)
             }
-        });
+            fn call(&self, ctx: ScriptContextRef, args: &[Value]) -> Result<Value, Error> {
+                args!(args, ctx=ctx, a, b);
+                match (a,b) {
+                    (Value::Integer(a),Value::Integer(b)) => Ok((a $op b).into()),
+                    (Value::String(a),Value::String(b)) => Ok((a $op b).into()),
+                    (Value::Boolean(a),Value::Boolean(b)) => Ok((a $op b).into()),
+                    (a,b) => bail!("can not compare {} with {}", a, b)
+                }
+            }
+        }
     }
 }
 
